@@ -1,6 +1,6 @@
 (* C11 — lemmas about the optimiser model (Opt/Model.v). *)
 From Coq Require Import List Arith Bool Lia.
-From PV Require Import Opt.Syntax Generated.C11_Passes Opt.Model.
+From PV Require Import Opt.Syntax Generated.C11_Passes Opt.Model Opt.Spec.
 Import ListNotations.
 
 (* ================================================================== induction on types *)
@@ -123,8 +123,6 @@ Lemma dedup_by_subset : forall {A} (eqb : A -> A -> bool) l x, In x (dedup_by eq
 Proof. intros. eapply dedup_from_subset; eassumption. Qed.
 
 (* ================================================================== semantics, unfolded *)
-Definition wider (H : hier) (t t' : ty) : Prop := forall v, admits H t v -> admits H t' v.
-
 Lemma wider_refl : forall H t, wider H t t.
 Proof. unfold wider; auto. Qed.
 Lemma wider_trans : forall H a b c, wider H a b -> wider H b c -> wider H a c.
@@ -174,7 +172,7 @@ Proof.
     induction ps as [|p r IH]; intros items Hf; destruct items as [|x items']; try contradiction.
     + constructor.
     + destruct Hf as [Ha Hb]. constructor; [exact Ha | apply IH; exact Hb].
-  - intros [items' [E [Hs Hf]]]. inversion E; subst items'. split; [assumption|].
+  - intros [items' [E [Hs Hf]]]. inversion E; subst items'. split; [assumption|]. clear E.
     induction Hf; [exact I | split; assumption].
 Qed.
 
@@ -311,8 +309,404 @@ Qed.
 Lemma norm_union_admits : forall H l v, admits H (TUnion (norm_union l)) v <-> admits H (TUnion l) v.
 Proof.
   intros H l v. rewrite !admits_union. unfold norm_union. split.
-  - intros [x [Hx A]]. apply dedup_In in Hx. apply in_flat_map in Hx. destruct Hx as [t [Hin Hx]].
+  - intros [x [Hx A]]. rewrite dedup_In in Hx. apply in_flat_map in Hx. destruct Hx as [t [Hin Hx]].
     exists t. split; [assumption|]. apply flat1_sound. exists x; auto.
   - intros [t [Hin A]]. apply flat1_sound in A. destruct A as [x [Hx A]]. exists x. split; [|assumption].
     apply dedup_In. apply in_flat_map. exists t; auto.
+Qed.
+
+(* ================================================================== the generic visitor *)
+Lemma norm_union_elems : forall (I : ty -> Prop),
+  (forall ts, I (TUnion ts) -> Forall I ts) ->
+  forall l, Forall I l -> Forall I (norm_union l).
+Proof.
+  intros I IU l F. apply Forall_forall. intros x Hx. unfold norm_union in Hx. rewrite dedup_In in Hx.
+  apply in_flat_map in Hx. destruct Hx as [t [Hin Hx]]. rewrite Forall_forall in F. specialize (F t Hin).
+  destruct t; simpl in Hx; try (destruct Hx as [<-|[]]; exact F).
+  apply IU in F. rewrite Forall_forall in F. apply F; assumption.
+Qed.
+
+Section VisitWidens.
+  Variable fU : list ty -> ty.
+  Variable fG : kind -> cid -> list ty -> ty.
+  Variable fN : kind -> cid -> ty.
+  Variable fB : kind -> kind.
+  Variable H : hier.
+  Variable I : ty -> Prop.
+  Hypothesis I_union : forall ts, I (TUnion ts) -> Forall I ts.
+  Hypothesis I_gen : forall k c ps, I (TGen k c ps) -> Forall I ps.
+  Hypothesis I_tup : forall k c ps, I (TTup k c ps) -> Forall I ps.
+  Hypothesis I_call : forall k c ps, I (TCall k c ps) -> Forall I ps.
+  Hypothesis I_visit : forall t, I t -> I (visit fU fG fN fB t).
+  Hypothesis fU_ok : forall l, Forall I l -> wider H (TUnion l) (fU l).
+  Hypothesis fG_ok : forall k c ps, wider H (TGen k c ps) (fG k c ps).
+  Hypothesis fN_ok : forall k c, wider H (TName k c) (fN k c).
+
+  Lemma visit_children : forall ps,
+    Forall (fun t => I t -> wider H t (visit fU fG fN fB t)) ps -> Forall I ps ->
+    pw H ps (map (visit fU fG fN fB) ps).
+  Proof.
+    intros ps F1 F2. apply pw_map. rewrite Forall_forall in *. intros t Hin. apply F1; auto.
+  Qed.
+
+  Lemma visit_widens : forall t, I t -> wider H t (visit fU fG fN fB t).
+  Proof.
+    induction t using ty_ind'; intros It; simpl; try apply wider_refl.
+    - apply fN_ok.
+    - pose proof (I_union _ It) as Its.
+      eapply wider_trans; [|apply fU_ok].
+      + intros v A. apply norm_union_admits. apply admits_union in A. destruct A as [t [Hin A]].
+        apply admits_union. exists (visit fU fG fN fB t). split; [apply in_map; assumption|].
+        rewrite Forall_forall in H0, Its. apply H0; auto.
+      + apply norm_union_elems; [assumption|]. apply Forall_forall. intros x Hx. apply in_map_iff in Hx.
+        destruct Hx as [t [<- Hin]]. apply I_visit. rewrite Forall_forall in Its. auto.
+    - eapply wider_trans; [|apply fG_ok]. apply wider_gen. apply visit_children; eauto.
+    - pose proof (visit_children ps H0 (I_tup _ _ _ It)) as P. apply wider_tup; [assumption | apply map_length].
+    - pose proof (visit_children ps H0 (I_call _ _ _ It)) as P. apply wider_call; [assumption | apply map_length].
+  Qed.
+End VisitWidens.
+
+(* wf is closed under subterms *)
+Lemma wf_union_inv : forall k ts, wf k (TUnion ts) -> Forall (wf k) ts.
+Proof. intros k ts W; inversion W; assumption. Qed.
+Lemma wf_gen_inv : forall k k' c ps, wf k (TGen k' c ps) -> Forall (wf k) ps.
+Proof. intros k k' c ps W; inversion W; assumption. Qed.
+Lemma wf_tup_inv : forall k k' c ps, wf k (TTup k' c ps) -> Forall (wf k) ps.
+Proof. intros k k' c ps W; inversion W; assumption. Qed.
+Lemma wf_call_inv : forall k k' c ps, wf k (TCall k' c ps) -> Forall (wf k) ps.
+Proof. intros k k' c ps W; inversion W; assumption. Qed.
+
+Section VisitWf.
+  Variable fU : list ty -> ty.
+  Variable fG : kind -> cid -> list ty -> ty.
+  Variable fN : kind -> cid -> ty.
+  Variable k : kind.
+  Hypothesis fU_wf : forall l, Forall (wf k) l -> wf k (fU l).
+  Hypothesis fG_wf : forall c ps, Forall (wf k) ps -> wf k (fG k c ps).
+  Hypothesis fN_wf : forall c, wf k (fN k c).
+
+  Lemma visit_wf : forall t, wf k t -> wf k (visit fU fG fN id_kind t).
+  Proof.
+    induction t using ty_ind'; intros W; simpl; try assumption.
+    - inversion W; subst. apply fN_wf.
+    - apply fU_wf. apply norm_union_elems; [apply wf_union_inv|].
+      apply wf_union_inv in W. apply Forall_forall. intros x Hx. apply in_map_iff in Hx.
+      destruct Hx as [t [<- Hin]]. rewrite Forall_forall in H, W. auto.
+    - pose proof (wf_gen_inv _ _ _ _ W) as Wp. inversion W; subst. unfold id_kind. apply fG_wf.
+      apply Forall_forall. intros x Hx.
+      apply in_map_iff in Hx. destruct Hx as [t [<- Hin]]. rewrite Forall_forall in H, Wp. auto.
+    - pose proof (wf_tup_inv _ _ _ _ W) as Wp. inversion W; subst. unfold id_kind.
+      constructor; [assumption|]. apply Forall_forall. intros x Hx.
+      apply in_map_iff in Hx. destruct Hx as [t [<- Hin]]. rewrite Forall_forall in H, Wp. auto.
+    - pose proof (wf_call_inv _ _ _ _ W) as Wp. inversion W; subst. unfold id_kind. constructor.
+      apply Forall_forall. intros x Hx.
+      apply in_map_iff in Hx. destruct Hx as [t [<- Hin]]. rewrite Forall_forall in H, Wp. auto.
+  Qed.
+End VisitWf.
+
+Definition Itrue (t : ty) : Prop := True.
+Lemma Itrue_all : forall l, Forall Itrue l.
+Proof. intros l. apply Forall_forall. intros; exact I. Qed.
+
+(* --- JoinTypes keeps well-formedness *)
+Lemma flat_wf : forall k t, wf k t -> Forall (wf k) (flat t).
+Proof.
+  intros k t; induction t using ty_ind'; intros W; simpl; try (constructor; [assumption | constructor]).
+  - constructor.
+  - apply wf_union_inv in W. apply Forall_forall. intros x Hx. apply in_flat_map in Hx.
+    destruct Hx as [t [Hin Hx]]. rewrite Forall_forall in H, W. specialize (H t Hin (W t Hin)).
+    rewrite Forall_forall in H. auto.
+Qed.
+
+Lemma named_none_kind : forall k l, Forall (wf k) l -> existsb is_named_none l = true -> k = KNamed.
+Proof.
+  intros k l F E. apply existsb_exists in E. destruct E as [x [Hx E]]. rewrite Forall_forall in F.
+  specialize (F x Hx). destruct x; try discriminate. destruct k0; try discriminate. inversion F; reflexivity.
+Qed.
+
+Lemma join_wf : forall k ts, Forall (wf k) ts -> wf k (join ts).
+Proof.
+  intros k ts F. unfold join.
+  assert (Fl : Forall (wf k) (dedup (flat_map flat ts))).
+  { apply Forall_forall. intros x Hx. rewrite dedup_In in Hx. apply in_flat_map in Hx.
+    destruct Hx as [t [Hin Hx]]. rewrite Forall_forall in F. pose proof (flat_wf k t (F t Hin)) as G.
+    rewrite Forall_forall in G. auto. }
+  remember (dedup (flat_map flat ts)) as l eqn:El. clear El.
+  assert (G : wf k (if existsb is_any l
+                    then if existsb is_named_none l then TUnion [TAny; TName KNamed c_none] else TAny
+                    else match l with [] => TNothing | _ => TUnion l end)).
+  { destruct (existsb is_any l).
+    - destruct (existsb is_named_none l) eqn:E; [|constructor].
+      rewrite (named_none_kind k l Fl E). repeat constructor.
+    - destruct l; constructor. assumption. }
+  destruct l as [|y [|z r]]; try exact G. inversion Fl; assumption.
+Qed.
+
+(* ================================================================== simple type-level passes *)
+Lemma join_wider_union : forall H l, wider H (TUnion l) (join l).
+Proof.
+  intros H l v A. apply admits_union in A. destruct A as [t [Hin A]]. eapply join_widens; eassumption.
+Qed.
+
+Lemma simplify_unions_widens_lemma : forall H t, wider H t (simplify_unions t).
+Proof.
+  intros H t. unfold simplify_unions.
+  apply (visit_widens join TGen TName id_kind H Itrue); try (intros; apply Itrue_all); try (intros; exact I).
+  - intros; apply join_wider_union.
+  - intros; apply wider_refl.
+  - intros; apply wider_refl.
+Qed.
+
+Lemma simplify_unions_wf : forall k t, wf k t -> wf k (simplify_unions t).
+Proof.
+  intros k t. unfold simplify_unions. apply visit_wf.
+  - apply join_wf.
+  - intros; constructor; assumption.
+  - intros; constructor.
+Qed.
+
+Lemma sc_generic_wider : forall H k c ps, wider H (TGen k c ps) (sc_generic k c ps).
+Proof.
+  intros H k c ps v A. unfold sc_generic. destruct (forallb is_any ps); [|assumption].
+  apply admits_gen in A. simpl. tauto.
+Qed.
+Lemma sc_union_wider : forall H b l, wider H (TUnion l) (sc_union b l).
+Proof.
+  intros H b l v A. unfold sc_union. destruct b; [|assumption].
+  destruct l as [|x [|y r]]; try assumption. apply admits_union in A.
+  destruct A as [t [[<-|[]] A]]. assumption.
+Qed.
+Lemma simplify_containers_widens_lemma : forall H b t, wider H t (simplify_containers b t).
+Proof.
+  intros H b t. unfold simplify_containers.
+  apply (visit_widens (sc_union b) sc_generic TName id_kind H Itrue);
+    try (intros; apply Itrue_all); try (intros; exact I).
+  - intros; apply sc_union_wider.
+  - intros; apply sc_generic_wider.
+  - intros; apply wider_refl.
+Qed.
+Lemma simplify_containers_wf : forall k b t, wf k t -> wf k (simplify_containers b t).
+Proof.
+  intros k b t. unfold simplify_containers. apply visit_wf.
+  - intros l F. unfold sc_union. destruct b; [|constructor; assumption].
+    destruct l as [|x [|y r]]; try (constructor; assumption). inversion F; assumption.
+  - intros c ps F. unfold sc_generic. destruct (forallb is_any ps); constructor; assumption.
+  - intros; constructor.
+Qed.
+
+Lemma clu_union_wider : forall H n l, wider H (TUnion l) (clu_union n l).
+Proof.
+  intros H n l v A. unfold clu_union.
+  destruct ((n <? length l) && negb (existsb is_lit l)); [exact I|].
+  destruct (existsb is_any l); [apply join_wider_union; assumption | assumption].
+Qed.
+Lemma collapse_long_unions_widens_lemma : forall H n t, wider H t (collapse_long_unions n t).
+Proof.
+  intros H n t. unfold collapse_long_unions.
+  apply (visit_widens (clu_union n) TGen TName id_kind H Itrue);
+    try (intros; apply Itrue_all); try (intros; exact I).
+  - intros; apply clu_union_wider.
+  - intros; apply wider_refl.
+  - intros; apply wider_refl.
+Qed.
+Lemma collapse_long_unions_wf : forall k n t, wf k t -> wf k (collapse_long_unions n t).
+Proof.
+  intros k n t. unfold collapse_long_unions. apply visit_wf.
+  - intros l F. unfold clu_union. destruct ((n <? length l) && negb (existsb is_lit l)); [constructor|].
+    destruct (existsb is_any l); [apply join_wf; assumption | constructor; assumption].
+  - intros; constructor; assumption.
+  - intros; constructor.
+Qed.
+
+Lemma agt_name_wider : forall H k c, wider H (TName k c) (agt_name k c).
+Proof.
+  intros H k c v A. unfold agt_name. destruct k; [assumption|]. destruct (Nat.eqb c c_object); [exact I | assumption].
+Qed.
+Lemma adjust_generic_type_widens_lemma : forall H t, wider H t (adjust_generic_type t).
+Proof.
+  intros H t. unfold adjust_generic_type.
+  apply (visit_widens TUnion TGen agt_name id_kind H Itrue);
+    try (intros; apply Itrue_all); try (intros; exact I).
+  - intros; apply wider_refl.
+  - intros; apply wider_refl.
+  - intros; apply agt_name_wider.
+Qed.
+Lemma adjust_generic_type_wf : forall k t, wf k t -> wf k (adjust_generic_type t).
+Proof.
+  intros k t. unfold adjust_generic_type. apply visit_wf.
+  - intros; constructor; assumption.
+  - intros; constructor; assumption.
+  - intros c. unfold agt_name. destruct k; [constructor|]. destruct (Nat.eqb c c_object); constructor.
+Qed.
+
+Lemma resolve_widens_lemma : forall H t, wider H t (resolve t).
+Proof.
+  intros H t. unfold resolve.
+  apply (visit_widens TUnion TGen (fun _ c => TName KClass c) to_class H Itrue);
+    try (intros; apply Itrue_all); try (intros; exact I).
+  - intros; apply wider_refl.
+  - intros; apply wider_refl.
+  - intros k c v A. exact A.
+Qed.
+
+(* ================================================================== SimplifyUnionsWithSuperclasses *)
+Lemma memn_In : forall x l, memn x l = true <-> In x l.
+Proof.
+  intros x l. unfold memn. rewrite existsb_exists. split.
+  - intros [y [Hy E]]. apply Nat.eqb_eq in E. subst; assumption.
+  - intros Hin. exists x. split; [assumption | apply Nat.eqb_refl].
+Qed.
+
+Lemma subs_step_sound : forall H m S, (forall n, In n S -> Sub H n m) ->
+  forall n, In n (subs_step H S) -> Sub H n m.
+Proof.
+  intros H m S HS n Hin. unfold subs_step in Hin. apply in_app_or in Hin. destruct Hin as [Hin|Hin]; [auto|].
+  apply filter_In in Hin. destruct Hin as [_ E]. apply andb_true_iff in E. destruct E as [_ E].
+  apply existsb_exists in E. destruct E as [s [Hs E]]. apply memn_In in E.
+  econstructor; [exact Hs | auto].
+Qed.
+
+Lemma iter_subs_sound : forall H m k S, (forall n, In n S -> Sub H n m) ->
+  forall n, In n (iter k (subs_step H) S) -> Sub H n m.
+Proof.
+  intros H m k; induction k as [|k IH]; intros S HS n Hin; simpl in Hin; [auto|].
+  eapply IH; [|exact Hin]. apply subs_step_sound; assumption.
+Qed.
+
+Lemma expand_sub_sound : forall H m n, In n (expand_sub H m) -> Sub H n m.
+Proof.
+  intros H m n Hin. unfold expand_sub in Hin. eapply iter_subs_sound; [|exact Hin].
+  intros x [<-|[]]. constructor.
+Qed.
+
+Lemma iter_subs_mono : forall H k S n, In n S -> In n (iter k (subs_step H) S).
+Proof.
+  intros H k; induction k as [|k IH]; intros S n Hin; simpl; [assumption|].
+  apply IH. unfold subs_step. apply in_or_app; left; assumption.
+Qed.
+
+Lemma expand_sub_refl : forall H m, In m (expand_sub H m).
+Proof. intros. unfold expand_sub. apply iter_subs_mono. left; reflexivity. Qed.
+
+Lemma ranked_sub : forall H, ranked H -> forall a b, Sub H a b -> a = b \/ b < a.
+Proof.
+  intros H R a b S. induction S as [|d s c Hs _ IH]; [left; reflexivity|].
+  right. apply R in Hs. destruct IH as [<-|IH]; lia.
+Qed.
+
+Lemma dedup_from_NoDup : forall {A} (eqb : A -> A -> bool),
+  (forall a b, eqb a b = true <-> a = b) ->
+  forall l seen, NoDup (dedup_from eqb seen l) /\ (forall x, In x (dedup_from eqb seen l) -> ~ In x seen).
+Proof.
+  intros A eqb He. induction l as [|y r IH]; intros seen; simpl.
+  - split; [constructor | intros x []].
+  - destruct (mem_by eqb y seen) eqn:E; [apply IH|].
+    destruct (IH (y :: seen)) as [ND NI]. split.
+    + constructor; [|assumption]. intros Hin. apply (NI y Hin). left; reflexivity.
+    + intros x [<-|Hin] Hs.
+      * apply (mem_by_In eqb He) in Hs. congruence.
+      * apply (NI x Hin). right; assumption.
+Qed.
+
+Lemma dedup_NoDup : forall l, NoDup (dedup l).
+Proof. intros l. apply (dedup_from_NoDup ty_eqb ty_eqb_eq l []). Qed.
+
+Lemma filter_map_In : forall {A B} (f : A -> option B) l y,
+  In y (filter_map f l) <-> exists x, In x l /\ f x = Some y.
+Proof.
+  intros A B f l y. induction l as [|x r IH]; simpl.
+  - split; [contradiction | intros [? [[] _]]].
+  - destruct (f x) eqn:E; simpl; rewrite IH; split.
+    + intros [<-|[x' [Hin E']]]; [exists x; auto | exists x'; auto].
+    + intros [x' [[<-|Hin] E']]; [left; congruence | right; exists x'; auto].
+    + intros [x' [Hin E']]; exists x'; auto.
+    + intros [x' [[<-|Hin] E']]; [congruence | exists x'; auto].
+Qed.
+
+Lemma filter_map_NoDup : forall {A B} (f : A -> option B) l,
+  (forall x x' y, In x l -> In x' l -> f x = Some y -> f x' = Some y -> x = x') ->
+  NoDup l -> NoDup (filter_map f l).
+Proof.
+  intros A B f l Inj ND. induction ND as [|x r Hx ND IH]; simpl; [constructor|].
+  assert (IH' : NoDup (filter_map f r)).
+  { apply IH. intros a a' y Ha Ha'. apply Inj; right; assumption. }
+  destruct (f x) eqn:E; [|assumption]. constructor; [|assumption].
+  intros Hin. apply filter_map_In in Hin. destruct Hin as [x' [Hin E']].
+  assert (x = x') by (eapply Inj; [left; reflexivity | right; assumption | exact E | exact E']).
+  subst; contradiction.
+Qed.
+
+Lemma NoDup_two : forall (l : list nat) c, NoDup l -> 2 <= length l -> exists m, In m l /\ m <> c.
+Proof.
+  intros l c ND L. destruct l as [|a [|b r]]; simpl in L; try lia.
+  destruct (Nat.eq_dec a c) as [->|Ne]; [|exists a; split; [left; reflexivity | assumption]].
+  exists b. split; [right; left; reflexivity|]. inversion ND; subst. intros ->. apply H1. left; reflexivity.
+Qed.
+
+Lemma suws_union_wider : forall H k l, ranked H -> Forall (wf k) l -> wider H (TUnion l) (suws_union H l).
+Proof.
+  intros H k l R F. unfold suws_union.
+  set (members := filter_map name_of (dedup l)).
+  assert (M1 : forall c, In c members <-> In (TName k c) l).
+  { intros c. unfold members. rewrite filter_map_In. split.
+    - intros [t [Hin E]]. rewrite dedup_In in Hin. destruct t; try discriminate. simpl in E. inversion E; subst.
+      rewrite Forall_forall in F. specialize (F _ Hin). inversion F; subst. assumption.
+    - intros Hin. exists (TName k c). split; [apply dedup_In; assumption | reflexivity]. }
+  assert (M2 : NoDup members).
+  { unfold members. apply filter_map_NoDup; [|apply dedup_NoDup].
+    intros x x' y Hx Hx' E E'. rewrite dedup_In in Hx, Hx'. rewrite Forall_forall in F.
+    pose proof (F _ Hx) as W. pose proof (F _ Hx') as W'.
+    destruct x; try discriminate. destruct x'; try discriminate. simpl in E, E'.
+    inversion W; inversion W'; subst. congruence. }
+  assert (K : forall n c, c < n -> In c members ->
+              exists u, In u members /\ (suws_count H members u <=? 1) = true /\ Sub H c u).
+  { induction n as [|n IH]; intros c Lt Hc; [lia|].
+    destruct (suws_count H members c <=? 1) eqn:E.
+    - exists c. repeat split; try assumption. constructor.
+    - apply Nat.leb_gt in E. unfold suws_count in E.
+      destruct (NoDup_two (filter (fun m => memn c (expand_sub H m)) members) c) as [m [Hm Ne]];
+        [apply NoDup_filter; assumption | exact E |].
+      apply filter_In in Hm. destruct Hm as [Hm Ec]. apply memn_In in Ec. apply expand_sub_sound in Ec.
+      destruct (ranked_sub H R _ _ Ec) as [->|Lt']; [congruence|].
+      destruct (IH m ltac:(lia) Hm) as [u [Hu [Ku Su]]]. exists u. repeat split; try assumption.
+      eapply Sub_trans; eassumption. }
+  intros v A. apply admits_union in A. destruct A as [t [Hin A]].
+  destruct (name_of t) as [c|] eqn:E.
+  - destruct t; try discriminate. simpl in E. inversion E; subst c0.
+    rewrite Forall_forall in F. pose proof (F _ Hin) as W.
+    assert (k0 = k) by (inversion W; reflexivity). subst k0.
+    destruct (K (S c) c ltac:(lia) (proj2 (M1 c) Hin)) as [u [Hu [Ku Su]]].
+    eapply (join_widens H _ (TName k u)).
+    + apply filter_In. split; [apply M1; assumption|]. simpl. exact Ku.
+    + simpl. simpl in A. eapply Sub_trans; eassumption.
+  - eapply join_widens; [|exact A]. apply filter_In. split; [assumption|]. rewrite E. reflexivity.
+Qed.
+
+Lemma suws_union_wf : forall H k l, Forall (wf k) l -> wf k (suws_union H l).
+Proof.
+  intros H k l F. unfold suws_union. apply join_wf. apply Forall_forall. intros x Hx.
+  apply filter_In in Hx. destruct Hx as [Hx _]. rewrite Forall_forall in F. auto.
+Qed.
+
+Lemma simplify_superclasses_wf : forall H k t, wf k t -> wf k (simplify_superclasses H t).
+Proof.
+  intros H k t. unfold simplify_superclasses. apply visit_wf.
+  - apply suws_union_wf.
+  - intros; constructor; assumption.
+  - intros; constructor.
+Qed.
+
+Lemma simplify_superclasses_widens_lemma : forall H k t,
+  ranked H -> wf k t -> wider H t (simplify_superclasses H t).
+Proof.
+  intros H k t R. unfold simplify_superclasses.
+  apply (visit_widens (suws_union H) TGen TName id_kind H (wf k)).
+  - apply wf_union_inv.
+  - intros k0 c ps; apply wf_gen_inv.
+  - intros k0 c ps; apply wf_tup_inv.
+  - intros k0 c ps; apply wf_call_inv.
+  - apply simplify_superclasses_wf.
+  - intros; apply (suws_union_wider H k); assumption.
+  - intros; apply wider_refl.
+  - intros; apply wider_refl.
 Qed.
